@@ -695,12 +695,15 @@ func (x *Exec) specVars(s *State, fn *ssa.Function, env map[ssa.Value]*Val, at *
 				} else if c, ok := in.X.(*ssa.Const); ok {
 					vars[id.Name] = x.constVal(s, c)
 				}
-			case *ssa.Alloc:
-				if in.Comment != "" && !strings.Contains(in.Comment, " ") {
-					if v, ok := env[in]; ok && v.Ptr != nil {
-						// address-taken local: the name denotes the object
-						vars[in.Comment] = &Val{T: v.T, Ptr: v.Ptr}
-					}
+			}
+		}
+	}
+	// address-taken locals: the name denotes the object (takes precedence over value DebugRefs)
+	for _, b := range fn.Blocks {
+		for _, in := range b.Instrs {
+			if al, ok := in.(*ssa.Alloc); ok && al.Comment != "" && !strings.Contains(al.Comment, " ") && !strings.Contains(al.Comment, ".") {
+				if v, ok := env[al]; ok && v.Ptr != nil {
+					vars[al.Comment] = &Val{T: v.T, Ptr: v.Ptr}
 				}
 			}
 		}
